@@ -4,6 +4,7 @@ CONSTANTS
   Design = "drain"
   SharedClosure = FALSE
   Kinds = {"value"}
+  PeelLosesError = FALSE
 INVARIANT NoViolation
 INVARIANT QuiescentOK
 INVARIANT TypeOK
